@@ -48,22 +48,10 @@
 -/
 import JdProofs.LcsProofs
 import JdProofs.EqualsList
-import JdProofs.NoPanic
-import JdProofs.StrictPatch
-import JdProofs.SetPatch
-import JdProofs.YamlProofs
-import JdProofs.MergeProofs
-import JdProofs.EqualsSet
 import JdProofs.DiffEmpty
 import JdProofs.DiffPatchList
 import JdProofs.Common
-import JdProofs.PatchRender
-import JdProofs.NativeRoundTrip
-import JdProofs.CliProofs
-import JdProofs.SourceTables
 import JdProofs.DiffMinimal
-import JdProofs.MapOrder
-import JdProofs.PatchParseBack
 
 namespace Jd.Real
 open Jd Jd.Spec Jd.DPL
